@@ -36,6 +36,8 @@ def install():
     @_B('abs')
     def _abs(ex, v):
         if isinstance(v, Sym):
+            if not getattr(ex, 'fork_minmax', True):
+                return sym_abs(v)
             # fork so that later nonlinear reasoning sees a plain term
             if ex.ctx.branch(compare('>=', v, 0)):
                 return v
@@ -45,6 +47,13 @@ def install():
     def _minmax(is_min):
         def f(ex, *args, key=None, default=None):
             items = ex.iterate(args[0]) if len(args) == 1 else list(args)
+            if (items and key is None and not getattr(ex, 'fork_minmax', True)
+                    and all(isinstance(x, (Sym, int, float)) and not isinstance(x, bool) for x in items)
+                    and any(isinstance(x, Sym) for x in items)):
+                best = items[0]
+                for x in items[1:]:
+                    best = Ite(compare('<' if is_min else '>', x, best), x, best)
+                return best
             if not items:
                 if default is not None:
                     return default
